@@ -582,11 +582,13 @@ func specMain(s *States, o *vSpecOut, sb *vBus, pre States, op, ix int) {
 				s.AF.Lo = f&(sfS|sfZ|sfPV|sfC) | r&(sf5|sf3) | sfH | sfN
 			case 6: // SCF
 				o.Kind = skALU8
-				s.AF.Lo = f&(sfS|sfZ|sfPV) | sfC
+				// bits 5/3: chips differ (not compared); the value produced is the
+				// classic NMOS one (from A) so that zexall runs on the model
+				s.AF.Lo = f&(sfS|sfZ|sfPV) | sfC | a&(sf5|sf3)
 				o.FMask = 0xff &^ (sf5 | sf3)
 			default: // CCF
 				o.Kind = skALU8
-				s.AF.Lo = f&(sfS|sfZ|sfPV) | specB(f&sfC != 0, sfH) | specB(f&sfC == 0, sfC)
+				s.AF.Lo = f&(sfS|sfZ|sfPV) | specB(f&sfC != 0, sfH) | specB(f&sfC == 0, sfC) | a&(sf5|sf3)
 				o.FMask = 0xff &^ (sf5 | sf3)
 			}
 		}
